@@ -29,6 +29,7 @@ type NodeOpts struct {
 	InvCheckPeriod uint     `json:"inv_check_period,omitempty"`
 	EvmTracer      string   `json:"evm_tracer,omitempty"`
 	QueryGasLimit  uint64   `json:"query_gas_limit,omitempty"`
+	Telemetry      bool     `json:"telemetry,omitempty"` // app.toml telemetry.enabled (a process-wide switch of the SDK, set while this node runs)
 }
 
 type mapAppOpts map[string]interface{}
